@@ -74,7 +74,9 @@ func verifMethod(b *strings.Builder, m *method) {
 		b.WriteString("<nil>")
 		return
 	}
-	fmt.Fprintf(b, "%s(%s|body=%s|hasBody=%v|resp=%s|vars=", m.name, m.desc.FullName(), verifFields(m.body), m.hasBody, verifFields(m.resp))
+	// The descriptor's identity is part of the binding: two registrants of one method bring
+	// descriptors that are equal by name but distinct objects.
+	fmt.Fprintf(b, "%s(%s@%p|body=%s|hasBody=%v|resp=%s|vars=", m.name, m.desc.FullName(), m.desc, verifFields(m.body), m.hasBody, verifFields(m.resp))
 	for _, v := range m.vars {
 		b.WriteString(verifFields(v))
 		b.WriteString(",")
